@@ -261,9 +261,13 @@ func runC07Read(ctx *core.Ctx, r *core.Rng) {
 				offs = append(offs, k)
 			}
 		}
-		if len(offs) > 1000 { // terminator-dense input: thin the stratum out, keep both ends
+		limit := 350 // quick tier; every offset of a medium input costs a 4-10 KiB decode, four times
+		if ctx.Tier == "thorough" {
+			limit = 1000
+		}
+		if len(offs) > limit { // thin the stratum out, keep both ends
 			keep := []int{0}
-			for _, i := range r.Perm(len(offs) - 2)[:998] {
+			for _, i := range r.Perm(len(offs) - 2)[:limit-2] {
 				keep = append(keep, offs[i+1])
 			}
 			offs = append(keep, len(w))
@@ -355,10 +359,10 @@ func runC07Write(ctx *core.Ctx, r *core.Rng) {
 	ctx.Seen(core.HashBytes(full) ^ core.HashString(format+"/write"))
 	ctx.Stats.Inc("c07_write_records/" + format)
 	ctx.Stats.Add("c07_write_calls_per_record_total/"+format, int64(un.Calls))
-	// every offset; for outputs beyond 12 KiB a stratified sample (all offsets near
+	// every offset; for outputs beyond 3000 bytes a stratified sample (all offsets near
 	// 4 KiB multiples, the first and last 300, 600 random ones)
 	offs := make([]int, 0, len(full))
-	if len(full) <= 12000 {
+	if len(full) <= 3000 {
 		for k := 0; k < len(full); k++ {
 			offs = append(offs, k)
 		}
